@@ -179,7 +179,15 @@ def extract_harness(name, crates=None, cargo_args=None, repo=None, subcmd="check
     finally:
         shutil.rmtree(out_dir, ignore_errors=True)
         if repo != "/repo":
-            _prune_target(target_dir, crates)
+            # under the same lock as the cargo run: another check may be building in this target directory
+            import fcntl
+            lockf = open(target_dir.rstrip("/") + ".lock", "w")
+            fcntl.flock(lockf, fcntl.LOCK_EX)
+            try:
+                _prune_target(target_dir, crates)
+            finally:
+                fcntl.flock(lockf, fcntl.LOCK_UN)
+                lockf.close()
 
 
 def _prune_target(target_dir, crates):
